@@ -111,7 +111,7 @@ def join(tokens, rng=None):
                 if k < 0.4:
                     out.append(' ' if need or rng.random() < 0.5 else '')
                 else:
-                    out.append(' ' if k < 0.55 else '\n' if k < 0.7 else '  \t ' if k < 0.8 else ' ; a comment ( " \n' if k < 0.88 else ' ;\n' if k < 0.92 else '\n;\n;;\n ' if k < 0.95 else '\n;c\n\r\n ')
+                    out.append(' ' if k < 0.55 else '\n' if k < 0.7 else '  \t ' if k < 0.8 else ' ; a comment ( " \n' if k < 0.88 else ' ;\n' if k < 0.92 else '\n;\n;;\n ' if k < 0.94 else '\n;c\n\r\n ' if k < 0.97 else '\x0c' if k < 0.985 else '\r')
         out.append(body)
         glue_next = gr
         prev = body
